@@ -93,8 +93,8 @@ def r1_kinds(ctx, rep):
             allattrs |= c09.all_self_attrs(py, c)
     for k, v in sorted(st.items()):
         rep.ob(f"SUBLINK_TYPES[{k!r}] = {v!r} is an entity attribute", v in allattrs, "", "ford/sourceform.py")
-    pf = py.func("Project.find")
-    fc = py.func("FortranBase.find_child")
+    pf = py.ifunc("Project.find")
+    fc = py.ifunc("FortranBase.find_child")      # canonical form: the kind -> collection step may live in a helper
     fil = py.func("sourceform._find_in_list")
 
     def unknown_kind_raises(fn, table: str) -> Tuple[bool, bool]:
@@ -112,6 +112,22 @@ def r1_kinds(ctx, rep):
                                 isinstance(r, ast.Raise) and r.exc is not None and "ValueError" in ast.unparse(r.exc)
                                 for r in ast.walk(h)):
                             raises = True
+            # lookup with a default:  x = TABLE.get(kind.lower());  if x is None: raise ValueError
+            if isinstance(n, ast.Assign) and isinstance(n.value, ast.Call) and isinstance(n.value.func, ast.Attribute) and \
+                    n.value.func.attr == "get" and ast.unparse(n.value.func.value) == table and n.value.args and \
+                    len(n.targets) == 1 and isinstance(n.targets[0], ast.Name):
+                v = n.targets[0].id
+                lowered |= any(isinstance(c, ast.Call) and isinstance(c.func, ast.Attribute) and c.func.attr in ("lower", "casefold")
+                               for x in astq.expand_locals(n.value.args[0], fn) for c in ast.walk(x))
+                for i in ast.walk(fn):
+                    if isinstance(i, ast.If) and isinstance(i.test, ast.Compare) and ast.unparse(i.test.left) == v and \
+                            isinstance(i.test.ops[0], ast.Is) and ast.unparse(i.test.comparators[0]) == "None" and \
+                            any(isinstance(r, ast.Raise) and r.exc is not None and "ValueError" in ast.unparse(r.exc) for r in ast.walk(i)):
+                        raises = True
+                    if isinstance(i, ast.If) and isinstance(i.test, ast.UnaryOp) and isinstance(i.test.op, ast.Not) and \
+                            ast.unparse(i.test.operand) == v and \
+                            any(isinstance(r, ast.Raise) and r.exc is not None and "ValueError" in ast.unparse(r.exc) for r in ast.walk(i)):
+                        raises = True
             # membership test form:  if kind not in TABLE: raise ValueError
             if isinstance(n, ast.If) and any(isinstance(c, ast.Compare) and isinstance(c.ops[0], (ast.NotIn, ast.In))
                                              and ast.unparse(c.comparators[0]) == table for c in ast.walk(n.test)):
@@ -131,9 +147,11 @@ def r1_kinds(ctx, rep):
     rep.ob("find_child raises ValueError for unknown / impossible kinds", r2 and has_attr_guard,
            "" if r2 and has_attr_guard else "unknown item kind / an entity that cannot have that kind is not reported as ValueError",
            py.nloc(fc))
+    def is_lowered(x) -> bool:
+        return any(isinstance(c, ast.Call) and isinstance(c.func, ast.Attribute) and c.func.attr in ("lower", "casefold")
+                   and c is y for y in astq.expand_locals(x, fil)[:3] for c in [y])
     cmp_ci = any(isinstance(c, ast.Compare) and len(c.ops) == 1 and isinstance(c.ops[0], ast.Eq)
-                 and all(isinstance(x, ast.Call) and isinstance(x.func, ast.Attribute) and x.func.attr in ("lower", "casefold")
-                         for x in (c.left, c.comparators[0])) for c in ast.walk(fil))
+                 and all(is_lowered(x) for x in (c.left, c.comparators[0])) for c in ast.walk(fil))
     ok = l1 and l2 and cmp_ci
     rep.ob("kind qualifiers and names are compared case-insensitively", ok, "" if ok else
            f"case-sensitive comparison (LINK_TYPES key lowered: {l1}, SUBLINK_TYPES key lowered: {l2}, names compared lowered: {cmp_ci})",
@@ -311,7 +329,7 @@ def r4_conversion_location(ctx, rep):
                        f"relative to the process's working directory instead of the page it is shown on", py.nloc(c))
     if n < 5:
         raise AnalysisError(f"only {n} md.convert call sites found")
-    cv = py.func("MetaMarkdown.convert")
+    cv = py.ifunc("MetaMarkdown.convert")
     asg = astq.assignments(cv, "self.current_path")
     from_path = any(isinstance(v, ast.Name) and v.id == "path" for _, v in asg)
     derived = [v for _, v in asg if astq.mentions(v, "self.base_url", cv) and any(
@@ -406,21 +424,18 @@ def r7_item_collections(ctx, rep):
     display before iterating (`[[type:name(constructor)]]` raised TypeError: list(<FortranFunction>))."""
     py = ctx.py
     st = dict_const(py, "sourceform", "SUBLINK_TYPES")
-    fc = py.func("FortranBase.find_child")
-    # the variable handed to _find_in_list
-    calls = [c for c in py.walk_calls(fc) if call_name(c).endswith("_find_in_list")]
-    if len(calls) != 1 or not isinstance(calls[0].args[0], ast.Name):
-        raise AnalysisError("find_child: the _find_in_list(collection, name) call was not found")
-    var = calls[0].args[0].id
-    # is there a guard `isinstance(var, (list, ...))` / `var is None` whose branch rebinds var to a list display?
-    wraps = False
-    for n in ast.walk(fc):
-        if isinstance(n, ast.If) and "isinstance(" + var in ast.unparse(n.test):
-            for b in ast.walk(n):
-                if isinstance(b, ast.Assign) and any(isinstance(t, ast.Name) and t.id == var for t in b.targets):
-                    if any(isinstance(x, ast.List) and any(isinstance(e, ast.Name) and e.id == var for e in x.elts)
-                           for x in ast.walk(b.value)):
-                        wraps = True
+    fc = py.ifunc("FortranBase.find_child")      # canonical form: the kind -> collection step may live in a helper
+    # the variable that receives the attribute named by the kind: `<var> = getattr(self, <collection name>)`
+    got = [t.id for n in ast.walk(fc) if isinstance(n, ast.Assign) and isinstance(n.value, ast.Call) and call_name(n.value) == "getattr"
+           and n.value.args and ast.unparse(n.value.args[0]) == "self" for t in n.targets if isinstance(t, ast.Name)]
+    if len(set(got)) != 1:
+        raise AnalysisError("find_child: `<collection> = getattr(self, <name>)` was not found")
+    var = got[0]
+    # is there a test `isinstance(var, (list, ...))` and, for the other case, a list display that wraps var?
+    tested = any(isinstance(c, ast.Call) and call_name(c) == "isinstance" and c.args and ast.unparse(c.args[0]) == var
+                 for n in ast.walk(fc) if isinstance(n, (ast.If, ast.IfExp)) for c in ast.walk(n.test))
+    wrapped = any(isinstance(x, ast.List) and any(isinstance(e, ast.Name) and e.id == var for e in x.elts) for x in ast.walk(fc))
+    wraps = tested and wrapped
     raw_iter = [n for n in ast.walk(fc) if isinstance(n, ast.Call) and call_name(n) in ("list", "tuple", "iter")
                 and n.args and isinstance(n.args[0], ast.Call) and call_name(n.args[0]) == "getattr"]
     for kind, attr in sorted(st.items()):
@@ -457,7 +472,7 @@ def r8_found_items_have_urls(ctx, rep):
     c09.anchored_url_from_parent(ctx, rep)
     st = dict_const(py, "sourceform", "SUBLINK_TYPES")
     gd = py.func("FortranBase.get_dir")
-    gu = py.func("FortranBase.get_url")
+    gu = py.ifunc("FortranBase.get_url")
     selfs = isinstance_tuples(gd, "self")
     pars = isinstance_tuples(gd, "self.parent")
     if len(selfs) != 2 or len(pars) != 1:
